@@ -20,7 +20,11 @@ import (
 	"math/rand"
 	"os"
 	"path/filepath"
+	"runtime"
 	"sort"
+	"sync"
+	"sync/atomic"
+	"time"
 
 	bmp "github.com/pinealctx/neptune/bitmap1024"
 
@@ -79,14 +83,39 @@ type intT interface {
 }
 
 // iterOn runs one iterator call on a slice of L elements pre-filled with sent and returns the
-// count and the flattened slice afterwards.
-func iterOn[T intT](call func(s []T, pos int, add T, n int) int, w string, L, pos int, add, sent uint64, n int) (int, []int) {
-	s := make([]T, L)
-	for i := range s {
-		s[i] = T(sent)
+// count and a renderer of the caller's slice.  The slice is kept as it is (no copy): a history that
+// renders late shows what the slice holds when the history is over.
+func iterOn[T intT](call func(s []T, pos int, add T, n int) int, w string, L, pos int, add, sent uint64, n int, ch *chainState) (int, func() []int) {
+	var s []T
+	if ch != nil { // an accumulating caller: the slice of the previous call of the chain, as it is
+		if c, ok := ch.buf.([]T); ok && len(c) == L {
+			s = c
+		}
+	}
+	if s == nil {
+		s = make([]T, L)
+		for i := range s {
+			s[i] = T(sent)
+		}
+	}
+	if ch != nil {
+		ch.buf = s
+		ch.pre = flat(s, w)
 	}
 	c := call(s, pos, T(add), n)
-	return c, flat(s, w)
+	return c, func() []int { return flat(s, w) }
+}
+
+// chainState carries one caller slice through consecutive iterator calls (each call appends at the
+// cursor the previous ones left, like the list forms of the package do).
+type chainState struct {
+	buf interface{}
+	pre []int
+}
+
+// keep retains a slice the library returned - the very slice, not a copy - for rendering.
+func keep[T intT](s []T, w string) func() []int {
+	return func() []int { return flat(s, w) }
 }
 
 func flat[T intT](s []T, w string) []int {
@@ -99,9 +128,10 @@ func flat[T intT](s []T, w string) []int {
 
 // ---------------------------------------------------------------- the two layers
 type world struct {
-	univ int
-	big  []bmp.Bit1024 // univ = 1024
-	wd   []bmp.Bit64   // univ = 64
+	chain *chainState // non-nil while an accumulating chain of iterator calls runs
+	univ  int
+	big   []bmp.Bit1024 // univ = 1024
+	wd    []bmp.Bit64   // univ = 64
 }
 
 func newWorld(univ, nh int) *world {
@@ -207,7 +237,7 @@ func (w *world) fill(h int, ms []int) {
 }
 
 // iterCall dispatches to the iterator of the requested width and direction.
-func (w *world) iterCall(a *act, L int, add, sent uint64) (int, []int) {
+func (w *world) iterCall(a *act, L int, add, sent uint64) (int, func() []int) {
 	rev := a.Dir == "r"
 	if w.univ == 1024 {
 		b := w.big[a.H-1]
@@ -217,25 +247,25 @@ func (w *world) iterCall(a *act, L int, add, sent uint64) (int, []int) {
 			if rev {
 				f = b.RIterAsI16
 			}
-			return iterOn(f, a.W, L, a.Pos, add, sent, a.N)
+			return iterOn(f, a.W, L, a.Pos, add, sent, a.N, w.chain)
 		case "i32":
 			f := b.IterAsI32
 			if rev {
 				f = b.RIterAsI32
 			}
-			return iterOn(f, a.W, L, a.Pos, add, sent, a.N)
+			return iterOn(f, a.W, L, a.Pos, add, sent, a.N, w.chain)
 		case "u32":
 			f := b.IterAsU32
 			if rev {
 				f = b.RIterAsU32
 			}
-			return iterOn(f, a.W, L, a.Pos, add, sent, a.N)
+			return iterOn(f, a.W, L, a.Pos, add, sent, a.N, w.chain)
 		case "i64":
 			f := b.IterAsI64
 			if rev {
 				f = b.RIterAsI64
 			}
-			return iterOn(f, a.W, L, a.Pos, add, sent, a.N)
+			return iterOn(f, a.W, L, a.Pos, add, sent, a.N, w.chain)
 		}
 		tr.Fatal("Bit1024 has no iterator of width %q", a.W)
 	}
@@ -246,57 +276,57 @@ func (w *world) iterCall(a *act, L int, add, sent uint64) (int, []int) {
 		if rev {
 			f = b.RIterAsI8
 		}
-		return iterOn(f, a.W, L, a.Pos, add, sent, a.N)
+		return iterOn(f, a.W, L, a.Pos, add, sent, a.N, w.chain)
 	case "i16":
 		f := b.IterAsI16
 		if rev {
 			f = b.RIterAsI16
 		}
-		return iterOn(f, a.W, L, a.Pos, add, sent, a.N)
+		return iterOn(f, a.W, L, a.Pos, add, sent, a.N, w.chain)
 	case "i32":
 		f := b.IterAsI32
 		if rev {
 			f = b.RIterAsI32
 		}
-		return iterOn(f, a.W, L, a.Pos, add, sent, a.N)
+		return iterOn(f, a.W, L, a.Pos, add, sent, a.N, w.chain)
 	case "u32":
 		f := b.IterAsU32
 		if rev {
 			f = b.RIterAsU32
 		}
-		return iterOn(f, a.W, L, a.Pos, add, sent, a.N)
+		return iterOn(f, a.W, L, a.Pos, add, sent, a.N, w.chain)
 	case "i64":
 		f := b.IterAsI64
 		if rev {
 			f = b.RIterAsI64
 		}
-		return iterOn(f, a.W, L, a.Pos, add, sent, a.N)
+		return iterOn(f, a.W, L, a.Pos, add, sent, a.N, w.chain)
 	}
 	tr.Fatal("Bit64 has no iterator of width %q", a.W)
 	return 0, nil
 }
 
 // getN dispatches to the list forms (no uint32 form exists; Bit1024 has no int8 form).
-func (w *world) getN(a *act) []int {
+func (w *world) getN(a *act) func() []int {
 	rev := a.Dir == "r"
 	if w.univ == 1024 {
 		b := w.big[a.H-1]
 		switch a.W {
 		case "i16":
 			if rev {
-				return flat(b.RGetNAsI16(a.N), a.W)
+				return keep(b.RGetNAsI16(a.N), a.W)
 			}
-			return flat(b.GetNAsI16(a.N), a.W)
+			return keep(b.GetNAsI16(a.N), a.W)
 		case "i32":
 			if rev {
-				return flat(b.RGetNAsI32(a.N), a.W)
+				return keep(b.RGetNAsI32(a.N), a.W)
 			}
-			return flat(b.GetNAsI32(a.N), a.W)
+			return keep(b.GetNAsI32(a.N), a.W)
 		case "i64":
 			if rev {
-				return flat(b.RGetNAsI64(a.N), a.W)
+				return keep(b.RGetNAsI64(a.N), a.W)
 			}
-			return flat(b.GetNAsI64(a.N), a.W)
+			return keep(b.GetNAsI64(a.N), a.W)
 		}
 		tr.Fatal("Bit1024 has no list form of width %q", a.W)
 	}
@@ -304,24 +334,24 @@ func (w *world) getN(a *act) []int {
 	switch a.W {
 	case "i8":
 		if rev {
-			return flat(b.RGetNAsI8(a.N), a.W)
+			return keep(b.RGetNAsI8(a.N), a.W)
 		}
-		return flat(b.GetNAsI8(a.N), a.W)
+		return keep(b.GetNAsI8(a.N), a.W)
 	case "i16":
 		if rev {
-			return flat(b.RGetNAsI16(a.N), a.W)
+			return keep(b.RGetNAsI16(a.N), a.W)
 		}
-		return flat(b.GetNAsI16(a.N), a.W)
+		return keep(b.GetNAsI16(a.N), a.W)
 	case "i32":
 		if rev {
-			return flat(b.RGetNAsI32(a.N), a.W)
+			return keep(b.RGetNAsI32(a.N), a.W)
 		}
-		return flat(b.GetNAsI32(a.N), a.W)
+		return keep(b.GetNAsI32(a.N), a.W)
 	case "i64":
 		if rev {
-			return flat(b.RGetNAsI64(a.N), a.W)
+			return keep(b.RGetNAsI64(a.N), a.W)
 		}
-		return flat(b.GetNAsI64(a.N), a.W)
+		return keep(b.GetNAsI64(a.N), a.W)
 	}
 	tr.Fatal("Bit64 has no list form of width %q", a.W)
 	return nil
@@ -352,25 +382,61 @@ type runner struct {
 	thrs []int32 // thresholds every read is repeated under
 	dead bool    // a panic was logged: the rest of the trace is meaningless
 	step int
+	// late rendering: in about half of the traces every aggregate a call returned (list forms) or
+	// filled (the caller's slice) is kept AS RETURNED and rendered when the trace is over, so that a
+	// result that aliases scratch storage of the library, or a later call writing into an earlier
+	// caller's slice, shows.  The other traces render at once (crash evidence needs flush per event).
+	late    bool
+	pending []pend
+}
+
+type pend struct {
+	ev     tr.E
+	render lazy
+}
+
+// lazy is a reply that can be rendered later from retained storage.
+type lazy func() interface{}
+
+const hangLimit = 40 * time.Second
+
+func (r *runner) flush() {
+	for _, p := range r.pending {
+		if p.render != nil {
+			p.ev["r"] = p.render()
+		}
+		r.w.Emit(p.ev)
+	}
+	r.pending = r.pending[:0]
+}
+
+func (r *runner) put(ev tr.E, render lazy) {
+	if r.late {
+		r.pending = append(r.pending, pend{ev, render})
+		return
+	}
+	if render != nil {
+		ev["r"] = render()
+	}
+	r.w.Emit(ev)
 }
 
 func (r *runner) reset(univ, nh int, src string) {
+	r.flush()
 	r.wld = newWorld(univ, nh)
 	r.dead = false
 	r.step = 0
+	r.late = r.rng.Intn(2) == 0
 	bmp.VerifSetSparseMagic(9)
-	r.w.Emit(tr.E{"ev": "reset", "univ": univ, "nh": nh, "src": src})
+	r.w.Emit(tr.E{"ev": "reset", "univ": univ, "nh": nh, "src": src, "late": r.late})
 }
 
-// emit runs f (one call into the library) and logs call/panic.
-func (r *runner) emit(rec tr.E, f func() interface{}) {
-	if r.dead {
-		return
-	}
-	before := r.wld.snapshot()
-	var reply interface{}
-	var pmsg string
-	func() {
+// guarded runs one call into the library on its own goroutine: a panic is recovered into a message,
+// a call that does not come back within hangLimit is reported as hung (ok = false).
+func guarded(f func() interface{}) (reply interface{}, pmsg string, ok bool) {
+	done := make(chan struct{})
+	go func() {
+		defer close(done)
 		defer func() {
 			if p := recover(); p != nil {
 				pmsg = fmt.Sprintf("panic: %v", p)
@@ -378,12 +444,48 @@ func (r *runner) emit(rec tr.E, f func() interface{}) {
 		}()
 		reply = f()
 	}()
+	select {
+	case <-done:
+		return reply, pmsg, true
+	case <-time.After(hangLimit):
+		return nil, "", false
+	}
+}
+
+// hung: the code under test spins inside one call.  That is behaviour of the code, not a problem of
+// the harness: it is logged as an event no action explains, the trace is closed and the process ends
+// normally (the goroutine cannot be stopped).
+func (r *runner) hung(rec tr.E) {
+	r.flush()
+	r.w.Emit(tr.E{"ev": "hang", "a": rec, "msg": fmt.Sprintf("call did not return within %v", hangLimit)})
+	r.w.Close()
+	fmt.Printf("events=%d (ended by a hanging call)\n", r.w.N())
+	os.Exit(0)
+}
+
+// emit runs f (one call into the library) and logs call/panic/hang.
+func (r *runner) emit(rec tr.E, f func() interface{}) {
+	if r.dead {
+		return
+	}
+	before := r.wld.snapshot()
+	reply, pmsg, ok := guarded(f)
+	if !ok {
+		r.hung(rec)
+	}
 	if pmsg != "" {
+		r.flush()
 		r.w.Emit(tr.E{"ev": "panic", "a": rec, "msg": pmsg})
 		r.dead = true
 		return
 	}
-	r.w.Emit(tr.E{"ev": "call", "a": rec, "r": reply, "obs": r.wld.delta(before)})
+	ev := tr.E{"ev": "call", "a": rec, "obs": r.wld.delta(before)}
+	if lz, isLazy := reply.(lazy); isLazy {
+		r.put(ev, lz)
+		return
+	}
+	ev["r"] = reply
+	r.put(ev, nil)
 }
 
 func fitsI16(i int) bool { return i >= math.MinInt16 && i <= math.MaxInt16 }
@@ -534,7 +636,7 @@ func (r *runner) do(a *act) {
 			bmp.VerifSetSparseMagic(thr)
 			r.emit(rec, func() interface{} {
 				c, out := w.iterCall(&b, L, add, sent)
-				return tr.E{"c": c, "out": out}
+				return lazy(func() interface{} { return tr.E{"c": c, "out": out()} })
 			})
 		}
 		bmp.VerifSetSparseMagic(9)
@@ -549,7 +651,10 @@ func (r *runner) do(a *act) {
 		for _, thr := range r.thresholds(a.H) {
 			rec := tr.E{"op": "getn", "h": a.H, "w": wd, "dir": a.Dir, "n": a.N, "thr": int(thr)}
 			bmp.VerifSetSparseMagic(thr)
-			r.emit(rec, func() interface{} { return w.getN(&b) })
+			r.emit(rec, func() interface{} {
+				out := w.getN(&b)
+				return lazy(func() interface{} { return out() })
+			})
 		}
 		bmp.VerifSetSparseMagic(9)
 	default:
@@ -611,10 +716,15 @@ func normLimbs(l []int, from, to string) []int {
 	return toLimbs(fromLimbs(l, from), to)
 }
 
-// thresholds: the fixed ones plus one that splits this bitmap's own word popcounts
+// thresholds: the fixed ones plus one more - a threshold that splits this bitmap's own word
+// popcounts, or an extreme of the configuration value (negative, 1, just around 64, the ends of int32)
 func (r *runner) thresholds(h int) []int32 {
 	t := append([]int32{}, r.thrs...)
 	raw := r.wld.raw(h)
+	if len(raw) == 0 || r.rng.Intn(3) == 0 {
+		ext := []int32{-1, 1, 8, 10, 63, 65, math.MinInt32, math.MaxInt32, -64, 1 << 16}
+		return append(t, ext[r.rng.Intn(len(ext))])
+	}
 	pc := bits.OnesCount64(raw[r.rng.Intn(len(raw))])
 	t = append(t, int32(pc-r.rng.Intn(2)))
 	return t
@@ -802,6 +912,215 @@ func (r *runner) shapes64(nrand int) [][]int {
 	return out
 }
 
+// chainCalls: one caller slice filled by two or three consecutive iterator calls on (possibly)
+// different handles and directions, each starting where the previous one stopped.  The event carries
+// the whole slice before the call (`pre`) and after it: what earlier calls wrote must stay.
+func (r *runner) chainCalls() {
+	if r.dead {
+		return
+	}
+	w := r.wld
+	wd := r.widths()[r.rng.Intn(len(r.widths()))]
+	k := 2 + r.rng.Intn(2)
+	type seg struct {
+		h, n, cnt int
+		dir       string
+	}
+	segs := make([]seg, k)
+	start := r.rng.Intn(3)
+	L := start
+	for i := range segs {
+		h := r.rng.Intn(w.nh()) + 1
+		l := w.popcount(h)
+		n := []int{1, 2, 5, l, l + 1, l / 2, 2000, math.MaxInt, 0, -1}[r.rng.Intn(10)]
+		cnt := n
+		if cnt > l {
+			cnt = l
+		}
+		if cnt < 0 {
+			cnt = 0
+		}
+		segs[i] = seg{h, n, cnt, []string{"f", "r"}[r.rng.Intn(2)]}
+		L += cnt
+	}
+	L += r.rng.Intn(3)
+	sent := r.rng.Uint64() & mask(wd)
+	w.chain = &chainState{}
+	defer func() { w.chain = nil; bmp.VerifSetSparseMagic(9) }()
+	cursor := start
+	for i, sg := range segs {
+		add := fromLimbs(r.randAdd(wd), wd)
+		thr := r.thresholds(sg.h)
+		t := thr[r.rng.Intn(len(thr))]
+		b := act{Op: "iter", H: sg.h, W: wd, Dir: sg.dir, N: sg.n, Pos: cursor}
+		rec := tr.E{"op": "iter", "h": sg.h, "w": wd, "dir": sg.dir, "n": clampN(sg.n), "pos": cursor,
+			"add": toLimbs(add, wd), "len": L, "sent": toLimbs(sent, wd), "thr": int(t), "chain": i + 1}
+		noteN(rec, sg.n)
+		bmp.VerifSetSparseMagic(t)
+		r.emit(rec, func() interface{} {
+			c, out := w.iterCall(&b, L, add, sent)
+			rec["pre"] = w.chain.pre
+			return tr.E{"c": c, "out": out()} // the slice is reused: rendered at once
+		})
+		cursor += sg.cnt
+	}
+}
+
+// raceRound: a bitmap nobody writes is read by G goroutines released together by a spin barrier
+// (iterators of every width and direction, list forms, Len, NLen, Equal), while one more goroutine
+// keeps changing the sparse threshold.  Values that are only read are safe to share, so every reply
+// must be what the same call gives alone; the results are kept as returned and rendered when the
+// round is over (scratch storage shared between callers, lazily built tables shared without
+// synchronisation show here).  With -cold this is the first use of the package in the process.
+func (r *runner) raceRound(univ int, ms []int, src string, G, per int) {
+	r.reset(univ, 2, src)
+	r.do(&act{Op: "fill", H: 1, Ms: ms})
+	ms2 := append([]int{}, ms...)
+	if len(ms2) > 0 && r.rng.Intn(2) == 0 {
+		ms2 = ms2[:len(ms2)-1]
+	}
+	r.do(&act{Op: "fill", H: 2, Ms: ms2})
+	if r.dead {
+		return
+	}
+	w := r.wld
+	before := w.snapshot()
+	pops := []int{w.popcount(1), w.popcount(2)}
+	type res struct {
+		rec    tr.E
+		render lazy
+		pmsg   string
+	}
+	out := make([][]res, G)
+	var gate, stop int32
+	var ready, wg sync.WaitGroup
+	widths := r.widths()
+	for g := 0; g < G; g++ {
+		ready.Add(1)
+		wg.Add(1)
+		go func(g int, rng *rand.Rand) {
+			defer wg.Done()
+			var cur tr.E
+			defer func() {
+				if p := recover(); p != nil {
+					out[g] = append(out[g], res{rec: cur, pmsg: fmt.Sprintf("panic: %v", p)})
+				}
+			}()
+			ready.Done()
+			for atomic.LoadInt32(&gate) == 0 {
+			}
+			for k := 0; k < per; k++ {
+				h := rng.Intn(2) + 1
+				l := pops[h-1]
+				dir := []string{"f", "r"}[rng.Intn(2)]
+				switch x := rng.Intn(20); {
+				case x < 12:
+					wd := widths[rng.Intn(len(widths))]
+					pos := []int{0, 0, 1, 3, 7}[rng.Intn(5)]
+					n := []int{-1, 0, 1, l - 1, l, l + 1, 2000, math.MaxInt, math.MaxInt - pos + 1, l / 2}[rng.Intn(10)]
+					cnt := n
+					if cnt > l {
+						cnt = l
+					}
+					if cnt < 0 {
+						cnt = 0
+					}
+					L := pos + cnt + rng.Intn(3)
+					add := addPatterns[rng.Intn(len(addPatterns))] & mask(wd)
+					sent := rng.Uint64() & mask(wd)
+					b := act{Op: "iter", H: h, W: wd, Dir: dir, N: n, Pos: pos}
+					cur = tr.E{"op": "iter", "h": h, "w": wd, "dir": dir, "n": clampN(n), "pos": pos,
+						"add": toLimbs(add, wd), "len": L, "sent": toLimbs(sent, wd), "thr": "flip", "gor": g}
+					noteN(cur, n)
+					c, o := w.iterCall(&b, L, add, sent)
+					out[g] = append(out[g], res{rec: cur, render: func() interface{} { return tr.E{"c": c, "out": o()} }})
+				case x < 16:
+					wd := w.getnWidth(widths[rng.Intn(len(widths))])
+					n := []int{0, 1, l - 1, l, l + 1, 2000}[rng.Intn(6)]
+					if n < 0 {
+						n = 0
+					}
+					b := act{Op: "getn", H: h, W: wd, Dir: dir, N: n}
+					cur = tr.E{"op": "getn", "h": h, "w": wd, "dir": dir, "n": n, "thr": "flip", "gor": g}
+					o := w.getN(&b)
+					out[g] = append(out[g], res{rec: cur, render: func() interface{} { return o() }})
+				case x < 18:
+					op := []string{"len", "nlen"}[rng.Intn(2)]
+					cur = tr.E{"op": op, "h": h, "gor": g}
+					var v int
+					switch {
+					case univ == 1024 && op == "len":
+						v = w.big[h-1].Len()
+					case univ == 1024:
+						v = w.big[h-1].NLen()
+					case op == "len":
+						v = w.wd[h-1].Len()
+					default:
+						v = w.wd[h-1].NLen()
+					}
+					out[g] = append(out[g], res{rec: cur, render: func() interface{} { return v }})
+				default:
+					cur = tr.E{"op": "equal", "h": 1, "g": 2}
+					var v bool
+					if univ == 1024 {
+						v = w.big[0].Equal(w.big[1])
+					} else {
+						v = w.wd[0] == w.wd[1]
+					}
+					out[g] = append(out[g], res{rec: cur, render: func() interface{} { return v }})
+				}
+			}
+		}(g, rand.New(rand.NewSource(r.rng.Int63())))
+	}
+	flipped := make(chan struct{})
+	go func() {
+		defer close(flipped)
+		vals := []int32{0, 9, 64, 3, 30, -1, 9, 65}
+		for i := 0; atomic.LoadInt32(&stop) == 0; i++ {
+			bmp.VerifSetSparseMagic(vals[i%len(vals)])
+			runtime.Gosched()
+		}
+	}()
+	ready.Wait()
+	atomic.StoreInt32(&gate, 1)
+	done := make(chan struct{})
+	go func() { wg.Wait(); close(done) }()
+	select {
+	case <-done:
+	case <-time.After(hangLimit):
+		r.hung(tr.E{"op": "race", "src": src})
+	}
+	atomic.StoreInt32(&stop, 1)
+	<-flipped
+	bmp.VerifSetSparseMagic(9)
+	delta := w.delta(before)
+	var evs []pend
+	var panicked *res
+	for g := range out {
+		for i := range out[g] {
+			x := &out[g][i]
+			if x.pmsg != "" {
+				if panicked == nil {
+					panicked = x
+				}
+				continue
+			}
+			evs = append(evs, pend{tr.E{"ev": "call", "a": x.rec, "obs": []tr.E{}}, x.render})
+		}
+	}
+	if len(evs) > 0 {
+		evs[len(evs)-1].ev["obs"] = delta // nobody wrote: the bitmaps must be what they were
+	}
+	for _, e := range evs {
+		r.put(e.ev, e.render)
+	}
+	if panicked != nil {
+		r.flush()
+		r.w.Emit(tr.E{"ev": "panic", "a": panicked.rec, "msg": panicked.pmsg})
+		r.dead = true
+	}
+}
+
 // random history of mutations and reads over three handles
 func (r *runner) history(univ, nops int) {
 	r.reset(univ, 3, "rand")
@@ -851,6 +1170,8 @@ func (r *runner) history(univ, nops int) {
 			r.do(&act{Op: "len", H: h})
 		case x < 84:
 			r.do(&act{Op: "nlen", H: h})
+		case x < 87:
+			r.chainCalls()
 		case x < 95:
 			wd := r.widths()[r.rng.Intn(len(r.widths()))]
 			r.do(&act{Op: "iter", H: h, W: wd, Dir: []string{"f", "r"}[r.rng.Intn(2)], N: r.pickN(r.wld.popcount(h)),
@@ -875,10 +1196,26 @@ func main() {
 	nhist := flag.Int("hist", 30, "random histories per layer")
 	nops := flag.Int("ops", 40, "operations per history")
 	per := flag.Int("per", 1, "choices of n per width and direction in a sweep")
+	nrace := flag.Int("race", 6, "concurrent read rounds per layer")
+	cold := flag.Bool("cold", false, "only one concurrent read round, as the first use of the package in this process")
 	flag.Parse()
 	rng := rand.New(rand.NewSource(*seed))
 	w := tr.Create(*out)
 	r := &runner{w: w, rng: rng, thrs: []int32{0, 9, 64}}
+
+	if *cold {
+		if *seed%2 == 0 {
+			s := r.shapes64(1)
+			r.raceRound(64, s[len(s)-1], "cold64", 8, 5)
+		} else {
+			s := r.shapes1024(1)
+			r.raceRound(1024, s[len(s)-1], "cold1024", 8, 4)
+		}
+		r.flush()
+		w.Close()
+		fmt.Printf("events=%d\n", w.N())
+		return
+	}
 
 	if *plans != "" {
 		files, _ := filepath.Glob(filepath.Join(*plans, "*.ndjson"))
@@ -911,6 +1248,13 @@ func main() {
 		r.history(1024, *nops)
 		r.history(64, *nops)
 	}
+	for i := 0; i < *nrace; i++ {
+		s1 := r.shapes1024(1)
+		r.raceRound(1024, s1[r.rng.Intn(len(s1))], "race1024", 6, 4)
+		s2 := r.shapes64(1)
+		r.raceRound(64, s2[r.rng.Intn(len(s2))], "race64", 6, 6)
+	}
+	r.flush()
 	w.Close()
 	fmt.Printf("events=%d\n", w.N())
 }
